@@ -104,6 +104,16 @@ def classify_config_sensitive(which):
     return f
 
 
+DEPS_AUDIT = ['harness::emap_audit::' + n for n in (
+    'with_capacity_some_fills_every_slot', 'insert_and_get_mut_touch_one_slot', 'get_out_of_range_panics_oob',
+    'get_mut_out_of_range_panics_oob', 'insert_out_of_range_panics_oob',
+    'iter_mut_yields_slots_in_order_and_break_leaves_the_rest', 'iter_find_is_first_match', 'clone_is_deep')] + \
+    ['harness::microstack_audit::' + n for n in (
+        'new_push_len_order', 'push_on_full_panics_oob', 'from_vec_and_clone', 'try_push_never_panics')] + \
+    ['harness::micromap_audit::' + n for n in (
+        'insert_replaces_in_place_or_appends', 'insert_new_key_on_full_panics_oob', 'insert_existing_key_on_full_is_fine',
+        'clear_clone_remove')]
+
 T = 'harness::eqv::'
 TYPES_EQ = [T + 'label_eq_is_structural', T + 'persistence_eq_is_structural', T + 'label_copy_clone_keep_value']
 
@@ -128,6 +138,9 @@ def graph_prop(pid, technique, level_text, explanation, not_covered, extra=None)
         d['parts'] = [parts.kani_group('kani-types-structural-eq', TYPES_EQ if pid == 'C03' else TYPES_EQ[1:2],
                                        complete=True, kind='types')]
         d['back_end_extra'] = 'Kani 0.68.0 -> CBMC 6.11 for "== on Label/Persistence is structural" on the real types'
+    if pid in ('C07', 'C10'):
+        d.setdefault('parts', []).append(
+            parts.kani_group('kani-container-contract-audit', DEPS_AUDIT, complete=False, tier='thorough', kind='deps'))
     if extra:
         d.update(extra)
     return d
